@@ -31,6 +31,8 @@
 #ifndef __TASMANIAN_SPARSE_GRID_WAVELET_HPP
 #define __TASMANIAN_SPARSE_GRID_WAVELET_HPP
 
+#include <mutex>
+
 #include "tsgRuleWavelet.hpp"
 
 namespace TasGrid{
@@ -102,6 +104,7 @@ public:
 protected:
     double evalBasis(const int p[], const double x[]) const;
     void buildInterpolationMatrix() const;
+    void ensureInterpolationMatrix(int num_points) const;
     void recomputeCoefficients();
     void solveTransposed(double w[]) const;
     double evalIntegral(const int p[]) const;
@@ -128,6 +131,7 @@ private:
     Data2D<double> coefficients; // a.k.a., surpluses
 
     mutable TasSparse::WaveletBasisMatrix inter_matrix;
+    mutable std::mutex inter_matrix_lock; // guards the lazy build of inter_matrix inside const methods
 
     std::unique_ptr<SimpleConstructData> dynamic_values;
 
